@@ -90,7 +90,7 @@ def sig(case):
 
 
 def spaces(tier, seed):
-    N = 8 if tier == "quick" else 11
+    N = 10 if tier == "quick" else 12
     return [Space('krylov_iterations', core.chunked(_cases(N), 200), run_case=run_case, sig=sig,
                   bounds={'n<=': N, 'm': '1..n', 'matrix_kinds': kc.MATRIX_KINDS_H + kc.MATRIX_KINDS_G, 'start_kinds': kc.START_KINDS,
                           'presentations': kc.PRESENTATIONS})]
